@@ -15,10 +15,10 @@ texts = apply_unified_diff(tree, open(patch).read())
 if texts is None:
     print('PATCH DOES NOT APPLY'); sys.exit(8)
 for p in props:
-    base, _ = run_rules(p, load_prop(p).RULES, Model(SourceTree()), 'thorough')
+    base, _ = run_rules(p, load_prop(p).RULES, Model(SourceTree()), 'selftest')
     bk = {f.key for f in base.findings}
     try:
-        ctx, _ = run_rules(p, load_prop(p).RULES, Model(tree.with_overlay(texts)), 'thorough')
+        ctx, _ = run_rules(p, load_prop(p).RULES, Model(tree.with_overlay(texts)), 'selftest')
     except AnalysisError as exc:
         print(f'== {p} exit=2 ANALYSIS-ERROR {exc}'); continue
     new = [f for f in ctx.findings if f.key not in bk]
